@@ -638,7 +638,9 @@ func c20samples(c *core.Ctx) {
 		}
 	}
 	// strings and complex
-	ss := []string{"", "a", "A", "ab", "b", "\x00", "é"}
+	ss := []string{"", "a", "A", "ab", "b", "\x00", "é",
+		// 8 bytes and more, several differences inside one 8-byte block, differences in later blocks
+		"user-12a", "user-21a", "2026-10-02", "2026-09-30", "abcdefgh", "abcdefgz", "abcdefghi", "zbcdefga", "abcdefghabcdefg1", "abcdefghabcdefg0x", "abcdefghzbcdefga", "abcdefghabcdefga"}
 	for _, a := range ss {
 		for _, b := range ss {
 			cm := 0
